@@ -290,11 +290,15 @@ var c15Scenarios = []c15Scenario{
 	{"VisitJSON twice on the shared schema", [][]string{{"VisitJSON", "VisitJSON-ok"}, {"VisitJSON-ok", "VisitJSON"}}},
 	{"one operation reached through two servers, legacy router", [][]string{{"POST-legacy"}, {"POST-legacy-beta"}, {"POST-legacy"}}},
 	{"one operation reached through two servers, gorillamux", [][]string{{"GET-valid"}, {"GET-beta"}}},
+	{"one pattern text under two regular-expression engines", [][]string{{"PAT-default"}, {"PAT-other-engine"}}},
+	{"one pattern text under two engines, three threads", [][]string{{"PAT-other-engine"}, {"PAT-default", "PAT-other-engine"}, {"PAT-default"}}},
 }
 
 var c15Alone = map[string]string{}
 
 var c15TypeCounter = 1 << 10
+
+var c15AloneCounter = 1 << 40
 
 // scheduling decisions after which the subtree is assigned to a worker
 const c15OwnDepth = 5
@@ -303,7 +307,7 @@ func init() {
 	core.Register(&core.Check{
 		ID: "C15",
 		Rule: "part 1 (frame condition): every operation of the alphabet (route+validate request/response for valid and invalid GET/POST over both routers, VisitJSON, schema generation, encoder registration) run alone must leave a deep structural hash of the shared document, both routers and the shared schema unchanged; " +
-			"part 2 (controlled scheduler): 11 scenarios of 2-3 threads x 1-2 operations chosen to collide (same path template with different methods, same schema with pattern/uniqueItems/defaults, one uncached Go type, registry writer next to readers); scheduling points at every sync operation (vsync shim), at every access to a package-level variable of the library (instrumented) and between finding a route and using it; " +
+			"part 2 (controlled scheduler): 13 scenarios of 2-3 threads x 1-2 operations chosen to collide (same path template with different methods, same schema with pattern/uniqueItems/defaults, one uncached Go type, registry writer next to readers, one pattern text validated under the default and under a per-call regular-expression engine); scheduling points at every sync operation (vsync shim), at every access to a package-level variable of the library (instrumented) and between finding a route and using it; " +
 			"all interleavings with <=2 (quick) / <=3 (thorough) preemptions, blocking modelled, no enabled thread = deadlock; every call must return the verdict it returns alone; part 3: a free-running -race pass of the same operations for all pairs, 20 (quick) / 200 (thorough) repetitions. non-trivial = a schedule with at least one context switch",
 		Assumptions: []string{
 			"scheduling points are the sync operations, the package-level variable accesses and the operation boundaries; unsynchronised heap accesses between them are the business of part 1 (writes to shared memory) and part 3 (race detector)",
@@ -341,12 +345,15 @@ func c15OpsList() []string {
 		names = append(names, n)
 	}
 	sort.Strings(names)
-	return append(names, "GEN")
+	return append(names, "GEN", "PAT-default", "PAT-other-engine")
 }
 
 func c15Op(name string, typeN int) c15ops.Op {
 	if name == "GEN" {
 		return c15ops.GenOp(typeN)
+	}
+	if name == "PAT-default" || name == "PAT-other-engine" {
+		return c15ops.PatternOp(typeN, name == "PAT-other-engine")
 	}
 	return c15ops.Ops[name]
 }
@@ -386,7 +393,9 @@ func c15Schedule(r *core.Run, x *explore.X) {
 	for _, th := range sc.threads {
 		for _, name := range th {
 			if _, ok := alone[name]; !ok {
-				alone[name] = c15Op(name, typeN+1000000).Run(c15ops.NewShared(), nil)
+				// every stand-alone run gets a number of its own: nothing keyed by it can have been touched by another run
+				c15AloneCounter++
+				alone[name] = c15Op(name, c15AloneCounter).Run(c15ops.NewShared(), nil)
 			}
 		}
 	}
